@@ -3,6 +3,7 @@ from sa.selftest.harness import M, T
 X = "sharepoint2text/parsing/extractors/"
 S = X + "serialization.py"
 D = X + "data_types.py"
+XLSF = "sharepoint2text/parsing/extractors/ms_legacy/xls_extractor.py"
 MUTANTS = [
     M("set-typed-field", D, "    styles: List[RtfStyle] = field(default_factory=list)", "    styles: set[str] = field(default_factory=set)", "C05-GRAMMAR"),
     M("datetime-field", D, "class EmailMetadata(FileMetadataInterface):\n", "class EmailMetadata(FileMetadataInterface):\n    received_at: Optional[datetime.datetime] = None\n", "C05-GRAMMAR"),
@@ -20,6 +21,7 @@ MUTANTS = [
 TWINS = [
     T("rename-local", S, "    position = buffer.tell()\n    buffer.seek(0)\n    encoded = base64.b64encode(buffer.read()).decode(\"utf-8\")\n    buffer.seek(position)\n    return encoded", "    pos = buffer.tell()\n    buffer.seek(0)\n    out = base64.b64encode(buffer.read()).decode(\"utf-8\")\n    buffer.seek(pos)\n    return out"),
     T("optional-spelling", D, "    styles: List[RtfStyle] = field(default_factory=list)", "    styles: list[RtfStyle] = field(default_factory=list)"),
+    T("row-key-explicit-str", XLSF, "                header = (\n                    headers[col_idx] if col_idx < len(headers) else f\"col_{col_idx}\"\n                )\n", "                header = str(headers[col_idx]) if col_idx < len(headers) else f\"col_{col_idx}\"\n"),
 ]
 
 # --- seeded changes kept under /verif/seeded (sub-agents saw only the property text); each must be reported by the named rule
@@ -33,5 +35,7 @@ SEEDED = [
     ("C05-5", "C05-SIB"),
     ("C05-6", "C05-ORDER"),
     ("C05-7", "C05-SIB"),
+    ("C05-8", "C05-GRAMMAR"),
+    ("C05-9", "C05-KEYS"),
 ]
 MUTANTS = list(MUTANTS) + [_P("seed-" + sid, _os.path.join(_SEEDS, sid, "patch.diff"), rule) for sid, rule in SEEDED if _os.path.exists(_os.path.join(_SEEDS, sid, "patch.diff"))]
